@@ -552,6 +552,9 @@ def run_fixed(desc):
                  ('gl', '[[:alpha:]|]|b', ['[[:alpha:]|]', 'b']), ('gl', 'a\\/[|]|b', ['a\\/[|]', 'b']), ('gl', '[a\\/|b]|[c|d]', ['[a\\/', 'b]', '[c|d]']),
                  ('fn', '[]|]|b', ['[]|]', 'b']), ('gl', '[!]|]|b', ['[!]|]', 'b']), ('fn', '[a[:digit:]|x]|b', ['[a[:digit:]|x]', 'b']), ('fn', '[^|]|b', ['[^|]', 'b']),
                  ('fn', '[[:alpha:]|b', ['[[:alpha:]', 'b']), ('fn', 'a|[[:alpha:][:digit:]|]', ['a', '[[:alpha:][:digit:]|]']),
+                 # a bar between the `[` and the separator that shows the `[` to be an ordinary character is a top-level bar
+                 ('gl', '[a|b/c]', ['[a', 'b/c]']), ('gl', 'x[|y/z]', ['x[', 'y/z]']), ('gl', '[a|b|c/d]|e', ['[a', 'b', 'c/d]', 'e']), ('fn', '[a|b/c]', ['[a|b/c]']),
+                 ('gl', '[!a|b/c]', ['[!a', 'b/c]']), ('gl', '[a|b\\/c]', ['[a', 'b\\/c]']),
                  # a group that never closes is no group: its bars are top-level, whatever follows
                  ('fn', '@(a|[b]c', ['@(a', '[b]c']), ('gl', 'x|@(a|[b]c', ['x', '@(a', '[b]c']), ('fn', '*(a|[|]c|d', ['*(a', '[|]c', 'd']),
                  ('fn', '@(a|[b]c)|d', ['@(a|[b]c)', 'd']), ('fn', '@(a|[b', ['@(a', '[b']), ('fn', '@(a|\\)[b]|c', ['@(a', '\\)[b]', 'c']),
